@@ -1278,8 +1278,70 @@ func runStoreC06(o *opts) error {
 		stats["rc_child_histories"]++
 		stats["rc_tx"] += strings.Count(line, " TX")
 	}
+	// ---- link sequences: one pair linked / unlinked / probed several times inside one transaction through the single-link
+	// API (store_c06_links.go; generated after everything else: the streams above are unchanged)
+	nls := o.getInt("linkseq", -1)
+	if nls < 0 {
+		nls = n / 2
+		if o.thorough() {
+			nls = n / 8
+		}
+	}
+	for i := 0; i < nls; i++ {
+		prof := profileFor("c06")
+		w := wiringByName(c06LinkSeqWirings[i%len(c06LinkSeqWirings)])
+		w.derive()
+		g := &histGen{r: r, w: w, p: prof, ids: prof.ids}
+		stats["linkseq_wiring_"+w.Name]++
+		h, err := openHarnessDb(w, tmp)
+		if err != nil {
+			return err
+		}
+		txs, obs := g.genLinkSeqC06(h, stats)
+		h.close()
+		var cb strings.Builder
+		cb.WriteString(w.text())
+		for k := range txs {
+			cb.WriteString(" ")
+			cb.WriteString(w.txText(&txs[k]))
+		}
+		obsLine := strings.Join(obs, "")
+		cases.line("%s", cb.String())
+		impl.line("%s", obsLine)
+		nev.line("%s", "-")
+		stats["linkseq_histories"]++
+		stats["linkseq_tx"] += len(txs)
+		stats["linkseq_obs_commit"] += strings.Count(obsLine, " COMMIT")
+		stats["linkseq_obs_rollback"] += strings.Count(obsLine, " ROLLBACK")
+		stats["linkseq_bool_observations"] += strings.Count(obsLine, " LB:")
+		stats["linkseq_deleted_entities"] += strings.Count(obsLine, " VD:")
+		stats["validate_deleted_calls"] += strings.Count(obsLine, " VD:")
+		for _, t := range txs {
+			for _, op := range t.Ops {
+				switch op.Kind {
+				case "AL1", "RL1", "LQ", "AL", "RL":
+					stats["linkseq_op_"+op.Kind]++
+				}
+			}
+		}
+	}
+	nrs := o.getInt("rcseq", -1)
+	if nrs < 0 {
+		nrs = nrc / 2
+	}
+	for i := 0; i < nrs; i++ {
+		line := genRcSeqCase(r)
+		obs, err := runRcCase(line, tmp)
+		if err != nil {
+			return err
+		}
+		rcc.line("%s", line)
+		rci.line("%s", obs)
+		stats["rc_seq_histories"]++
+		stats["rc_tx"] += strings.Count(line, " TX")
+	}
 	writeJSON(o.out, "stats.json", stats)
-	fmt.Fprintf(os.Stderr, "storec06: %d histories, %d rc histories, %d burst histories, %d child-level histories, %d rc child-level histories\n", n, nrc, nb, nch, nrcc)
+	fmt.Fprintf(os.Stderr, "storec06: %d histories, %d rc histories, %d burst histories, %d child-level histories, %d rc child-level histories, %d link-sequence histories, %d rc sequence histories\n", n, nrc, nb, nch, nrcc, nls, nrs)
 	return nil
 }
 
